@@ -163,10 +163,18 @@ type State struct {
 	cells map[*ssa.Alloc][]Term
 	heap  map[string]Term
 	alloc Term
+	// params is set while the body of a declared (opaque) spec function is evaluated: every heap family the body
+	// reads becomes a hidden parameter of the SMT function, so that an application sees the heap of its own state
+	params *heapParams
+}
+
+type heapParams struct {
+	fams  []string
+	terms []Term
 }
 
 func (s *State) clone() *State {
-	n := &State{cells: map[*ssa.Alloc][]Term{}, heap: map[string]Term{}, alloc: s.alloc}
+	n := &State{cells: map[*ssa.Alloc][]Term{}, heap: map[string]Term{}, alloc: s.alloc, params: s.params}
 	for k, v := range s.cells {
 		n.cells[k] = append([]Term(nil), v...)
 	}
@@ -218,6 +226,7 @@ type Gen struct {
 	counts  map[string]int
 	loops   map[*ssa.BasicBlock]*loopInfo
 	specDecl map[string]bool
+	specHeap map[string]*heapParams
 	assumptions []string
 	curPos  token.Pos
 	bodyless bool
@@ -330,6 +339,18 @@ func shortKey(k string) string {
 
 func (g *Gen) famTerm(st *State, fam string, sort string) Term {
 	if t, ok := st.heap[fam]; ok {
+		return t
+	}
+	if st.params != nil {
+		for i, f := range st.params.fams {
+			if f == fam {
+				return st.params.terms[i]
+			}
+		}
+		t := Term{smtName("sp.H." + fam), sort}
+		st.params.fams = append(st.params.fams, fam)
+		st.params.terms = append(st.params.terms, t)
+		st.heap[fam] = t
 		return t
 	}
 	// initial version: shared by all states
